@@ -441,7 +441,7 @@ func randomModule(r *rand.Rand, n int, prev []*planned) *planned {
 	}
 	// functions
 	for i := 1 + r.Intn(3); i > 0; i-- {
-		f := LFunc{Sig: ">i", Bump: -1, Const: uint32(n*100 + len(d.Funcs))}
+		f := LFunc{Sig: ">i", Bump: -1, Const: uint32(0x5eed0000 + n*100 + len(d.Funcs))} // distinctive: never equal to a counter value
 		switch {
 		case r.Intn(4) == 0:
 			f.Sig = pick(r, allSigs)
